@@ -166,6 +166,19 @@ pub fn seq(scale: usize, max: usize, file_safe: bool) -> BoxedStrategy<Vec<u8>> 
     proptest::strategy::Union::new_weighted(arms).boxed()
 }
 
+/// tokens for sequences holding valid two-byte UTF-8 characters (all their bytes are >= 0x80, i.e.
+/// ambiguous): Latin-1 letters whose bytes alias nucleotides when the high bit is dropped, mixed with
+/// real bases. Only usable on unwrapped lines (a wrap inside a character would make the file invalid UTF-8).
+pub const UTF8_TOKENS: &[&str] = &["A", "C", "G", "T", "a", "t", "N", "\u{c0}", "\u{c1}", "\u{c2}", "\u{c3}", "\u{c7}", "\u{d4}", "\u{e9}", "\u{ff}", "\u{141}"];
+
+pub fn utf8_seq(max_tokens: usize) -> BoxedStrategy<Vec<u8>> {
+    prop_oneof![
+        2 => vec(select(UTF8_TOKENS.to_vec()), 0..=max_tokens).prop_map(|t| t.concat().into_bytes()),
+        1 => vec(select(UTF8_TOKENS[7..].to_vec()), 1..=max_tokens).prop_map(|t| t.concat().into_bytes()),
+    ]
+    .boxed()
+}
+
 /// nucleotide-only sequence (either case, U allowed)
 pub fn nuc_seq(scale: usize, max: usize) -> BoxedStrategy<Vec<u8>> {
     let l = len_strategy(scale.max(1), max);
